@@ -753,6 +753,47 @@ func classify(c Case) (bool, []string) {
 		set["entry="+st.Entry] = true
 		if _, inline := lookupDef(c, st.Prog); inline {
 			set["generated-program"] = true
+			for _, el := range strings.Split(p.Files["page.vuego"], "<p ")[1:] {
+				el = el[:strings.Index(el, ">")]
+				hasStatic, hasBound, hasShow := strings.Contains(el, ` style="`) || strings.HasPrefix(el, `style="`), strings.Contains(el, `:style="`), strings.Contains(el, `v-show="`)
+				switch {
+				case hasStatic && hasBound && hasShow:
+					set["gen:style+:style+v-show"] = true
+				case hasStatic && hasBound:
+					set["gen:style+:style"] = true
+				case hasStatic && hasShow:
+					set["gen:style+v-show"] = true
+				case hasBound && hasShow:
+					set["gen::style+v-show"] = true
+				}
+				if strings.Contains(el, `:style="{`) {
+					set["gen::style-object"] = true
+				}
+				if strings.Contains(el, `:class="{`) {
+					set["gen::class-object"] = true
+				}
+				if strings.Contains(el, `class="s t"`) && strings.Contains(el, `:class="`) {
+					set["gen:class+:class"] = true
+				}
+				nb := strings.Count(el, `" :`) + strings.Count(el, `" v-bind:`)
+				if strings.HasPrefix(el, ":") {
+					nb++
+				}
+				if nb >= 4 {
+					set["gen:bound-attrs>=4"] = true
+				} else {
+					set["gen:bound-attrs<4"] = true
+				}
+				for i := 0; i < 7; i++ {
+					if strings.Contains(el, fmt.Sprintf(`="s%d"`, i)) {
+						set["gen:static-twin-of-bound"] = true
+						break
+					}
+				}
+			}
+			if strings.Contains(p.Files["page.vuego"], `v-for="r in rows"`) {
+				set["gen:inside-v-for"] = true
+			}
 		}
 		for _, f := range p.Feat {
 			set["feat="+f] = true
